@@ -352,6 +352,9 @@ def make_classes(maxsize, typed):
         def __eq__(self, o):
             return self is o
 
+        def __len__(self):
+            return 0  # instances are falsy (an empty container): binding must not depend on truthiness
+
         @A.lru_cache(maxsize=maxsize, typed=typed)
         async def meth(self, x):
             la.append(("meth", self.n, x))
@@ -380,6 +383,9 @@ def make_classes(maxsize, typed):
 
             def __eq__(self, o):
                 return self is o
+
+            def __len__(self):
+                return 0
 
             @functools.lru_cache(maxsize=maxsize, typed=typed)
             def meth(self, x):
